@@ -23,7 +23,8 @@ BATCH = 150
 def model_value(val: dict):
 	t = val['t']
 	if t == 'int':
-		return ('int', val['v'])
+		# integers beyond TLC's range are carried as decimal text
+		return ('int', int(val['dec']) if 'dec' in val else val['v'])
 	if t == 'flt':
 		return ('float', Fraction(val['n'], val['d']))
 	if t == 'str':
